@@ -40,6 +40,19 @@ Two layers.
     declare_coloring.  Judged: totals through the component with the partial coloring == uncolored == closed
     form, and again with a dynamic driver total coloring on top (which consumes the sub-jacobian sparsity the
     component reports after coloring).
+
+(c) THE COLORING TRAVELS.  A Coloring is written to a file by every dynamic coloring, read back by
+    use_fixed_coloring, pickled for the MPI broadcast, copied.  Contract layer: every judged coloring is also judged
+    AFTER pickle.dumps/loads (all), copy.deepcopy and Coloring.save -> Coloring.load (every 4th), twice through a
+    file, copy.copy and pickle protocol 2 (every 32nd) - and all of these for EVERY coloring with a
+    non-empty subtraction list: groups, nonzero maps, subtraction list (content and order), shape, nonzero pattern,
+    total_solves / modes, names, metadata equal the original's; the matrix rebuilt from the copy's data == A; the
+    copy's _expand_jac == A.  Framework layer ('reload' shards): problem 1 computes a dynamic total coloring (mostly
+    mode auto + direct=False on patterns with dense rows AND columns, where substitution lists arise) or a partial
+    coloring; problem 2 receives it by use_fixed_coloring(<file saved with Coloring.save> | <file run 1 wrote
+    itself> | <file written by compute_total_coloring(fname=)> | no argument = the standard file of the coloring
+    directory of a problem of the same name | pickled / deep-copied object); a third problem reads the file problem 2
+    re-saved.  Each problem's compute_totals (twice, with / without driver scaling) == uncolored twin == closed form.
 """
 import itertools
 import random
@@ -62,6 +75,11 @@ RULE = ('contract layer: ALL boolean patterns of the enumerated shapes x {fwd, r
         'coloring_info on problems with dynamic / fixed total coloring (sequence position of the first driver-order '
         'call varied); partial-subset layer: declare_coloring(wrt=subset) x position of the subset x explicit / '
         'implicit x analytic / approximated other columns x dynamic / fixed, alone and under a total coloring; '
+        'serialization: every contract-layer coloring x {pickle, deepcopy, file, file twice, copy, pickle protocol 2} '
+        '(sub-sampled except for colorings with subtractions), reload layer: total (dense-row-and-column patterns '
+        'up to 9x9, mode, direct / substitution, scaling) and partial colorings x way the second problem receives '
+        'the coloring {saved file, run-1 file, offline file, standard directory, third run, pickled / deep-copied '
+        'object}; '
         'distinct = distinct (pattern, mode, direct) resp. structural description; non-trivial = pattern has at '
         'least two nonzero columns and rows resp. the coloring was actually used')
 LEVEL_TEXT = ('exhaustive over the enumerated shapes for the coloring/reconstruction contract; sampled for larger '
@@ -76,7 +94,11 @@ ASSUMPTIONS = ['matrix entries in [1, 2]: no cancellation, reconstruction is exa
                'source instead of its driver name is not judged (such combinations are not generated); a call whose '
                'UNCOLORED twin already differs from the closed form is not judged (counted)',
                'Driver._compute_totals() (private) is called without arguments only - it is what every optimizer '
-               'driver calls each iteration']
+               'driver calls each iteration',
+               'copies: None, {} and [] all mean "no subtractions"; Coloring.load may ADD metadata (timestamp, source) '
+               'but must keep what was saved; a problem with the same name and working directory as an earlier one '
+               'reads that one\'s coloring files when use_fixed_coloring() is given no file (documented standard '
+               'location)']
 MIN_JUDGED = {'quick': 30000, 'thorough': 250000}
 REQUIRED_COUNTERS = ['contract:evaluations', 'contract:fwd', 'contract:rev', 'contract:auto-direct',
                      'contract:auto-substitution', 'contract:recursive-fallback', 'obs:bidirectional-result',
@@ -96,7 +118,19 @@ REQUIRED_COUNTERS = ['contract:evaluations', 'contract:fwd', 'contract:rev', 'co
                      'obs:partialsub-colored-vs-uncolored', 'obs:partialsub-total-coloring-on-top-used',
                      'cell:partialsub/all', 'cell:partialsub/first', 'cell:partialsub/middle',
                      'cell:partialsub/last', 'cell:partialsub/several', 'cell:partialsub/implicit',
-                     'cell:partialsub/explicit', 'cell:partialsub/dynamic', 'cell:partialsub/fixed-file']
+                     'cell:partialsub/explicit', 'cell:partialsub/dynamic', 'cell:partialsub/fixed-file',
+                     'obs:copy/pickle', 'obs:copy/deepcopy', 'obs:copy/file', 'obs:copy/file-twice', 'obs:copy/copy',
+                     'obs:copy-with-subtractions/pickle', 'obs:copy-with-subtractions/deepcopy',
+                     'obs:copy-with-subtractions/file', 'obs:copy-with-subtractions/file-twice',
+                     'obs:expand_jac-of-copy', 'obs:reload-colored-vs-uncolored',
+                     'obs:reload-coloring-has-subtractions/file', 'obs:reload-coloring-has-subtractions/object-copy',
+                     'obs:reload-subtractions-applied-after-reload', 'obs:reload-third-run-used-resaved-file',
+                     'obs:reload-bidirectional-coloring', 'cell:reload/substitution', 'cell:reload/scaled',
+                     'cell:reload/total/file', 'cell:reload/total/run1-file', 'cell:reload/total/std-dir',
+                     'cell:reload/total/third-run', 'cell:reload/total/compute_total_coloring-fname',
+                     'cell:reload/total/pickled-object', 'cell:reload/total/deepcopied-object',
+                     'cell:reload/partial/file', 'cell:reload/partial/run1-file', 'cell:reload/partial/std-dir',
+                     'cell:reload/partial/third-run', 'cell:reload/partial/pickled-object']
 SHARD_TIMEOUT = {'quick': 900, 'thorough': 3000}
 
 _state = {'acc': None, 'installed': False, 'depth': 0, 'ctx': None}
@@ -216,10 +250,158 @@ def judge_coloring(P, mode, direct, coloring, acc, case):
                      (direction, P.astype(int).tolist()))
         except Exception as e:
             viol('expand_jac-raises:%s' % type(e).__name__, str(e)[:200])
+    # 5. the coloring is still the same coloring after it has been copied / pickled / written to a file and read back
+    if not bad[0]:
+        try:
+            judge_copies(P, A, coloring, (fwd, rev, subs), ts, viol, acc)
+        except Exception as e:
+            viol('copies:monitor-raises:%s' % type(e).__name__, str(e)[:200])
     if not bad[0]:
         nontriv = int(P.any(axis=0).sum()) >= 2 and int(P.any(axis=1).sum()) >= 2
         acc.ok(fingerprint([P.shape, np.packbits(P.ravel()).tolist(), mode, bool(direct)]), nontrivial=nontriv,
                sample=case if acc.judged % 50021 == 0 else None)
+
+
+# how a Coloring travels: Coloring.save -> Coloring.load (every coloring file: use_fixed_coloring(<file>), the coloring
+# directory of a previous run, `openmdao total_coloring`), pickle (the MPI bcast of compute_total_coloring), copies
+# Cost control: pickle for every judged coloring; the dearer ways for every k-th one AND for every coloring that has
+# a non-empty subtraction list (the only part of a coloring that cannot be recomputed from the rest).
+EVERY = {'pickle': 1, 'deepcopy': 4, 'file': 4, 'file-twice': 32, 'copy': 32, 'pickle-protocol-2': 32}
+_rt = {'dir': None}
+
+
+def _norm_subs(subs):
+    """Subtraction list as plain ints; None / {} / [] all mean 'no subtractions'."""
+    if not subs:
+        return []
+    return [((int(pos[0]), int(pos[1])), [(int(a), int(b)) for a, b in lst]) for pos, lst in subs]
+
+
+def _copies_of(coloring, n, everything):
+    """(how, callable making the copy) - the ways a Coloring object is duplicated / serialized."""
+    import copy
+    import os
+    import pickle
+    import tempfile
+    import openmdao.utils.coloring as cm
+    if _rt['dir'] is None:
+        # a memory-backed directory where there is one: open(..., 'wb') on the disk-backed /tmp costs milliseconds
+        shm = '/dev/shm' if os.path.isdir('/dev/shm') and os.access('/dev/shm', os.W_OK) else None
+        _rt['dir'] = tempfile.mkdtemp(prefix='c03rt', dir=shm)
+        import atexit
+        import shutil
+        atexit.register(shutil.rmtree, _rt['dir'], True)
+    fn = os.path.join(_rt['dir'], 'roundtrip_coloring.pkl')
+
+    def through_file():
+        coloring.save(fn)
+        return cm.Coloring.load(fn)
+
+    def twice_through_file():          # what a second run does: load, save to its own directory; a third run loads that
+        coloring.save(fn)
+        c1 = cm.Coloring.load(fn)
+        c1.save(fn)
+        return cm.Coloring.load(fn)
+    ways = [('pickle', lambda: pickle.loads(pickle.dumps(coloring, protocol=pickle.HIGHEST_PROTOCOL))),
+            ('deepcopy', lambda: copy.deepcopy(coloring)),
+            ('file', through_file), ('file-twice', twice_through_file),
+            ('copy', lambda: copy.copy(coloring)),
+            ('pickle-protocol-2', lambda: pickle.loads(pickle.dumps(coloring, protocol=2)))]
+    return [(how, make) for how, make in ways if everything or n % EVERY[how] == 0]
+
+
+def judge_copies(P, A, coloring, orig, ts, viol, acc):
+    """Every way of duplicating / serializing the coloring must give an object that describes the same coloring:
+    same groups, nonzero maps, subtraction list (content and order), shape, nonzero pattern, solve counts, names and
+    metadata - and the matrix rebuilt from the COPY's data must equal A.  One violation per defective copy: the key
+    names the first aspect that differs, the text lists all of them."""
+    import openmdao.utils.coloring as cm
+    nr, nc = P.shape
+    fwd, rev, subs = orig
+    nsubs = _norm_subs(subs)
+    n = acc.counters.get('contract:evaluations', 0)
+    tolr = 1e-12 * 4.0 * max(nr, nc)
+    for how, make in _copies_of(coloring, n, bool(nsubs)):
+        where = 'after-%s' % how
+        try:
+            c2 = make()
+        except Exception as e:
+            viol('%s:raises:%s' % (where, type(e).__name__), str(e)[:200])
+            continue
+        acc.count('obs:copy/%s' % how)
+        if nsubs:
+            acc.count('obs:copy-with-subtractions/%s' % how)
+        if not isinstance(c2, cm.Coloring):
+            viol('%s:not-a-Coloring' % where, 'got %s' % type(c2).__name__)
+            continue
+        try:
+            fwd2 = _maps(c2, 'fwd', nc) if c2._fwd else None
+            rev2 = _maps(c2, 'rev', nr) if c2._rev else None
+            subs2 = c2._subtractions
+            Jr2, _ = R.rebuild(A, fwd2, rev2, subs2)
+        except Exception as e:
+            viol('%s:rebuild-raises:%s' % (where, type(e).__name__), str(e)[:200])
+            continue
+        diffs = []          # (aspect, text)
+        nsubs2 = _norm_subs(subs2)
+        if nsubs2 != nsubs:
+            diffs.append(('subtractions-differ', 'subtractions: original %s, copy %s' %
+                          (nsubs, subs2 if not subs2 else nsubs2)))
+        if (fwd is None) != (fwd2 is None) or (rev is None) != (rev2 is None):
+            diffs.append(('directions-differ', 'original fwd=%s rev=%s, copy fwd=%s rev=%s' %
+                          (fwd is not None, rev is not None, fwd2 is not None, rev2 is not None)))
+        else:
+            for name, a, b in (('fwd', fwd, fwd2), ('rev', rev, rev2)):
+                if a is not None and a[0] != b[0]:
+                    diffs.append(('%s-groups-differ' % name, '%s groups: original %s, copy %s' % (name, a[0], b[0])))
+                if a is not None and a[1] != b[1]:
+                    diffs.append(('%s-nonzero-map-differs' % name, '%s nonzero map: original %s, copy %s' %
+                                  (name, a[1], b[1])))
+        try:
+            if not (tuple(c2._shape) == tuple(coloring._shape) and
+                    np.array_equal(c2._nzrows, coloring._nzrows) and np.array_equal(c2._nzcols, coloring._nzcols)):
+                diffs.append(('shape-or-nonzero-pattern-differs', 'shape %s -> %s' % (coloring._shape, c2._shape)))
+            sol = (c2.total_solves(), c2.total_solves(rev=False), c2.total_solves(fwd=False), c2.modes())
+            sol0 = (ts, coloring.total_solves(rev=False), coloring.total_solves(fwd=False), coloring.modes())
+            if sol != sol0:
+                diffs.append(('solve-counts-differ', 'total/fwd/rev/modes original %s, copy %s' % (sol0, sol)))
+            for att in ('_row_vars', '_col_vars', '_row_var_sizes', '_col_var_sizes'):
+                a, b = getattr(coloring, att), getattr(c2, att, 'missing')
+                if (a is None) != (b is None) or (a is not None and list(a) != list(b)):
+                    diffs.append(('%s-differs' % att.strip('_'), '%s: original %r, copy %r' % (att, a, b)))
+            m0, m2 = coloring._meta, c2._meta
+            lost = [k for k in m0 if k not in m2 or (k not in ('source', 'timestamp') and
+                                                     repr(m0[k]) != repr(m2[k]))]
+            if lost:
+                diffs.append(('meta-differs', 'meta keys %s: original %r, copy %r' %
+                              (lost, {k: m0[k] for k in lost}, {k: m2.get(k) for k in lost})))
+            # one-directional: the framework's own dense expansion, from the copy (its color arrays are caches
+            # that have to be rebuilt for the copy)
+            if how != 'pickle' and (fwd2 is None) != (rev2 is None):
+                direction, dat = ('fwd', fwd2) if fwd2 is not None else ('rev', rev2)
+                if direction == 'fwd':
+                    comp = np.zeros((nr, len(dat[0])))
+                    for k, cols in enumerate(dat[0]):
+                        comp[:, k] = A[:, cols].sum(axis=1)
+                else:
+                    comp = np.zeros((len(dat[0]), nc))
+                    for k, rows in enumerate(dat[0]):
+                        comp[k, :] = A[rows, :].sum(axis=0)
+                full = np.asarray(c2._expand_jac(comp, direction).toarray())
+                acc.count('obs:expand_jac-of-copy')
+                if np.any(np.abs(full - A) > tolr):
+                    diffs.append(('expand_jac-mismatch', '_expand_jac(%s) of the copy differs from the matrix' %
+                                  direction))
+        except Exception as e:
+            diffs.append(('summary-raises:%s' % type(e).__name__, str(e)[:200]))
+        wrong = np.abs(Jr2 - A) > tolr
+        if np.any(wrong):
+            k = np.unravel_index(np.argmax(np.abs(Jr2 - A)), A.shape)
+            diffs.append(('reconstruction-mismatch', 'matrix rebuilt from the copy: entry %s is %r, true %r, %d entries '
+                          'wrong' % (tuple(int(v) for v in k), Jr2[k], A[k], int(wrong.sum()))))
+        if diffs:
+            viol('%s:%s' % (where, diffs[0][0]), ('; '.join(t for _, t in diffs) + '; pattern %s' %
+                                                  P.astype(int).tolist())[:1500])
 
 
 def post_reconstructs(J, mode, direct, result):
@@ -776,10 +958,12 @@ def _wrt_matched(case):
     return [nm for nm in names if any(fnmatch.fnmatchcase(nm, pat) for pat in case['pwrt'])]
 
 
-def build_h(case, tot=None, par=None):
+def build_h(case, tot=None, par=None, name=None):
     """Harness y = A g(x) with any number of input/output variables.
-    tot: None | 'dynamic' | Coloring | filename (driver total coloring)
-    par: None | 'dynamic' | filename (component coloring over the inputs matched by case['pwrt'])"""
+    tot: None | 'dynamic' | 'std' (use_fixed_coloring() - the standard file of the problem's coloring directory) |
+         Coloring | filename (driver total coloring)
+    par: None | 'dynamic' | 'std' | Coloring | filename (component coloring over the inputs matched by case['pwrt'])
+    name: problem name (= name of its output directory, where its coloring files are written to / read from)"""
     import openmdao.api as om
     isz, osz = case['isz'], case['osz']
     n, m = sum(isz), sum(osz)
@@ -842,7 +1026,9 @@ def build_h(case, tot=None, par=None):
             if par is not None:
                 self.declare_coloring(wrt=case['pwrt'], method=method, min_improve_pct=0., num_full_jacs=2,
                                       show_summary=False, show_sparsity=False)
-                if par != 'dynamic':
+                if par == 'std':
+                    self.use_fixed_coloring(recurse=False)
+                elif par != 'dynamic':
                     self.use_fixed_coloring(par, recurse=False)
 
         def compute(self, inputs, outputs):
@@ -878,7 +1064,7 @@ def build_h(case, tot=None, par=None):
                         if rows.size:
                             partials[yn, xn] = blk[rows, cols]
 
-    p = om.Problem()
+    p = om.Problem(name=name) if name else om.Problem()
     mdl = p.model
     pr = ['*'] if case.get('promote') else None
     ivc = mdl.add_subsystem('ivc', om.IndepVarComp(), promotes=pr)
@@ -913,7 +1099,10 @@ def build_h(case, tot=None, par=None):
         p.driver.declare_coloring(direct=case.get('direct', True), min_improve_pct=0., num_full_jacs=2,
                                   show_summary=False, show_sparsity=False)
     elif tot is not None:
-        p.driver.use_fixed_coloring(tot)
+        if tot == 'std':
+            p.driver.use_fixed_coloring()
+        else:
+            p.driver.use_fixed_coloring(tot)
         # options only (the static coloring stays): a coloring without improvement is used as well
         p.driver.declare_coloring(direct=case.get('direct', True), min_improve_pct=0., show_summary=False,
                                   show_sparsity=False)
@@ -1331,6 +1520,226 @@ def run_psub_case(case, acc):
                 pass
 
 
+# ----------------------------------------------------------------------------------------------
+# (b4) framework layer, colorings that are REUSED: written to a file / copied in one problem, used in another one
+# ----------------------------------------------------------------------------------------------
+TOTAL_WAYS = ['file', 'file', 'run1-file', 'std-dir', 'third-run', 'compute_total_coloring-fname', 'pickled-object',
+              'deepcopied-object']
+PARTIAL_WAYS = ['file', 'run1-file', 'std-dir', 'third-run', 'pickled-object']
+WAY_GROUP = {'file': 'file', 'run1-file': 'file', 'std-dir': 'file', 'third-run': 'file',
+             'compute_total_coloring-fname': 'file', 'pickled-object': 'object-copy', 'deepcopied-object': 'object-copy'}
+
+
+def _split(rng, total, parts):
+    """`total` as a list of `parts` positive sizes <= 6."""
+    parts = max(parts, -(-total // 6))
+    parts = min(parts, total)
+    cuts = sorted(rng.sample(range(1, total), parts - 1)) if parts > 1 else []
+    sizes = [b - a for a, b in zip([0] + cuts, cuts + [total])]
+    while max(sizes) > 6:
+        k = sizes.index(max(sizes))
+        j = sizes.index(min(sizes))
+        sizes[k] -= 1
+        sizes[j] += 1
+    return sizes
+
+
+def gen_reload_case(rng, idx, uid, rot=0):
+    # the ways rotate (every shard visits every way), everything else is random
+    if idx % 4 == 3:
+        case = gen_psub_case(rng, idx)
+        case.update({'kind': 'reload', 'layer': 'partial', 'way': PARTIAL_WAYS[(idx // 4 + rot) % len(PARTIAL_WAYS)],
+                     'uid': uid, 'driver': 'scipy'})
+        return case
+    # patterns for which the bidirectional coloring wins and the substitution method leaves a subtraction list:
+    # a few dense rows AND columns over something sparse
+    m, n = rng.randrange(4, 10), rng.randrange(4, 10)
+    kind = rng.choice(['arrow', 'arrow', 'eisenstat', 'eisenstat', 'blockdiag+dense', 'random+cross'])
+    if kind == 'random+cross':
+        P = np.array([[rng.random() < 0.15 for _ in range(n)] for _ in range(m)], dtype=bool)
+        P[np.arange(min(m, n)), np.arange(min(m, n))] = True
+        P[rng.randrange(m), :] = True
+        P[:, rng.randrange(n)] = True
+    else:
+        P = structured_pattern(rng, m, n, kind)
+    if rng.random() < 0.5:                  # the dense rows / columns anywhere, not only first
+        P = P[rng.sample(range(m), m), :][:, rng.sample(range(n), n)]
+    for i in range(m):
+        if not P[i].any():
+            P[i, rng.randrange(n)] = True
+    for j in range(n):
+        if not P[:, j].any():
+            P[rng.randrange(m), j] = True
+    isz, osz = _split(rng, n, rng.choice([1, 2, 3])), _split(rng, m, rng.choice([1, 2, 3]))
+    A = [[round(rng.uniform(1, 2), 4) if P[i, j] else 0.0 for j in range(n)] for i in range(m)]
+    case = {'kind': 'reload', 'layer': 'total', 'idx': idx, 'uid': uid, 'isz': isz, 'osz': osz, 'pkind': kind, 'A': A,
+            'g': rng.choice(['lin', 'sq']), 'x0': [round(rng.uniform(0.5, 1.5), 4) for _ in range(n)],
+            'mode': rng.choice(['auto', 'auto', 'auto', 'auto', 'auto', 'auto', 'fwd', 'rev']),
+            'direct': rng.random() < 0.25, 'promote': rng.random() < 0.5, 'driver': 'scipy', 'obj': None,
+            'way': TOTAL_WAYS[(idx - idx // 4 + rot) % len(TOTAL_WAYS)], 'scaling': None}
+    if rng.random() < 0.4:
+        case['scaling'] = {'dv': [[round(rng.uniform(0.2, 5), 3) for _ in range(k)] for k in isz],
+                           'con': [[round(rng.uniform(0.2, 5), 3) for _ in range(k)] for k in osz]}
+    case['ds'] = bool(case['scaling']) and rng.random() < 0.7
+    return case
+
+
+def run_reload_case(case, acc):
+    """Problem 1 computes a coloring (dynamic); problem 2 (3) gets it through a file / a copy; every problem's
+    derivatives must equal the uncolored twin's and the closed form."""
+    import contextlib
+    import copy
+    import io
+    import os
+    import pickle
+    import tempfile
+    import openmdao.utils.coloring as cm
+    install(acc)
+    layer, way = case['layer'], case['way']
+    _state['ctx'] = 'reload'
+    ps = []
+    total = layer == 'total'
+    uid = case['uid']
+    ds = bool(case.get('ds'))
+    hook = 'hook:simul_coloring_jac_setter' if total else 'hook:_colored_column_iter'
+
+    def cnt(name):
+        return acc.counters.get(name, 0)
+
+    def build(col, name=None):
+        q = build_h(case, name=name, **({'tot': col} if total else {'par': col}))
+        ps.append(q)
+        return q
+
+    def coloring_of(q):
+        return (q.driver if total else q.model.c)._coloring_info.coloring
+    try:
+        blocks = closed_form_h(case, ds)
+        dvs, _, resps, _ = _h_names(case)
+        Jx = np.block([[blocks[a, b] for b in range(len(dvs))] for a in range(len(resps))])
+        A = np.array(case['A'])
+        if total or case['method'] == 'cs':
+            tol = (1e-12 if total else 1e-11) * np.abs(Jx).max()
+        else:
+            fmax = np.abs(A).sum(axis=1).max() * 2.25
+            tol = np.abs(A).max() * 1e-6 * 1.01 + 32 * np.finfo(float).eps * fmax / 1e-6
+        try:
+            p0 = build_h(case)
+            ps.append(p0)
+            J0 = p0.compute_totals(return_format='array', driver_scaling=ds)
+        except Exception as e:
+            acc.skip('uncolored-raises:%s(not C03)' % type(e).__name__)
+            return
+        if J0.shape != Jx.shape or np.any(np.abs(J0 - Jx) > tol):
+            acc.skip('uncolored-differs-from-closed-form(not C03)')
+            return
+        res = []            # (who, J first call, J second call, coloring used, subtractions applied)
+        stage = 'first-run'
+        quiet = contextlib.redirect_stdout(io.StringIO())           # 'loading coloring from file ...'
+        quiet.__enter__()
+        try:
+            p1 = build('dynamic', name='c03r_%s_a' % uid)
+            if way == 'compute_total_coloring-fname':
+                fn = os.path.join(tempfile.mkdtemp(prefix='c03rl'), 'offline_total_coloring.pkl')
+                with contextlib.redirect_stdout(io.StringIO()):
+                    col = cm.compute_total_coloring(p1, fname=fn)
+            h0, s0 = cnt(hook), cnt('hook:_apply_subtractions')
+            Ja = p1.compute_totals(return_format='array', driver_scaling=ds)
+            Jb = p1.compute_totals(return_format='array', driver_scaling=ds)
+            res.append(('dynamic', Ja, Jb, cnt(hook) > h0, cnt('hook:_apply_subtractions') > s0))
+            if way != 'compute_total_coloring-fname':
+                col = coloring_of(p1)
+            if col is None:
+                acc.skip('no-coloring-to-reuse')
+                return
+            has_subs = bool(col._subtractions)
+            bidir = bool(col._fwd and col._rev)
+            names = ['c03r_%s_b' % uid]
+            if way in ('file', 'third-run'):
+                src = os.path.join(tempfile.mkdtemp(prefix='c03rl'), 'saved_coloring.pkl')
+                col.save(src)
+            elif way == 'compute_total_coloring-fname':
+                src = fn
+            elif way == 'run1-file':                      # the file the framework wrote itself in run 1
+                src = str((p1.driver if total else p1.model.c).get_coloring_fname(mode='output'))
+            elif way == 'std-dir':                          # same problem name = same coloring directory
+                src, names = 'std', ['c03r_%s_a' % uid]
+            elif way == 'pickled-object':
+                src = pickle.loads(pickle.dumps(col))
+            else:
+                src = copy.deepcopy(col)
+            if way == 'third-run':
+                names.append(names[0])
+            for k, nm in enumerate(names):
+                stage = 'reloaded' if k == 0 else 'reloaded-from-resaved-file'
+                q = build(src, name=nm)
+                h0, s0 = cnt(hook), cnt('hook:_apply_subtractions')
+                Ja = q.compute_totals(return_format='array', driver_scaling=ds)
+                Jb = q.compute_totals(return_format='array', driver_scaling=ds)
+                res.append((stage, Ja, Jb, cnt(hook) > h0, cnt('hook:_apply_subtractions') > s0))
+                src = 'std'         # a third run takes the file the second run re-saved in its own directory
+        except Exception as e:
+            acc.viol('reload:%s:%s:%s:raises:%s' % (layer, WAY_GROUP[way], stage, type(e).__name__),
+                     'way %s: %s' % (way, str(e)[:300]), case)
+            return
+        finally:
+            quiet.__exit__(None, None, None)
+        acc.count('obs:reload-colored-vs-uncolored')
+        acc.count('cell:reload/%s/%s' % (layer, way))
+        if total:
+            modetag = '%s:%s' % (case['mode'], 'direct' if case['direct'] else 'substitution')
+            if not case['direct']:
+                acc.count('cell:reload/substitution')
+            if bidir:
+                acc.count('obs:reload-bidirectional-coloring')
+            if has_subs:
+                acc.count('obs:reload-coloring-has-subtractions')
+                acc.count('obs:reload-coloring-has-subtractions/%s' % WAY_GROUP[way])
+                modetag += '-with-subtractions'
+            if ds:
+                acc.count('cell:reload/scaled')
+        else:
+            modetag = case['method']
+        bad = False
+        for who, Ja, Jb, used, subs_applied in res:
+            for nth, J in (('first-call', Ja), ('second-call', Jb)):
+                d = np.abs(J - Jx) if J.shape == Jx.shape else None
+                lim = tol if total or case['method'] == 'cs' else 2 * tol
+                if d is None or np.any(d > tol) or np.any(np.abs(J - J0) > lim) or not np.all(np.isfinite(J)):
+                    k = np.unravel_index(np.argmax(d), d.shape) if d is not None else None
+                    src_tag = 'dynamic' if who == 'dynamic' else '%s:%s' % (WAY_GROUP[way], who)
+                    acc.viol('reload:%s:%s:%s:colored-differs-from-uncolored' % (layer, modetag, src_tag),
+                             'way %s, %s, %s: %s (coloring used %s, subtractions applied %s; coloring of run 1: '
+                             'bidirectional %s, subtractions %s)' %
+                             (way, who, nth, 'shape %s' % (J.shape,) if d is None else
+                              'entry %s colored %r exact %r, %d of %d entries wrong' %
+                              (tuple(int(v) for v in k), J[k], Jx[k], int((d > tol).sum()), d.size), used,
+                              subs_applied, bidir, _norm_subs(col._subtractions)), case, new_case=not bad)
+                    bad = True
+                    break
+            if bad:
+                break
+        if bad:
+            return
+        if not all(r[3] for r in res):
+            acc.skip('coloring-not-used')
+            return
+        if total and has_subs and all(r[4] for r in res[1:]):
+            acc.count('obs:reload-subtractions-applied-after-reload')
+        if len(res) > 2:
+            acc.count('obs:reload-third-run-used-resaved-file')
+        acc.ok(fingerprint(['reload', layer, case['isz'], case['osz'], (A != 0).astype(int).tolist(), modetag, way,
+                            bool(case.get('scaling')), ds, case.get('pwrt'), bool(case.get('implicit'))]),
+               nontrivial=True, sample=case if case['idx'] % 23 == 0 else None)
+    finally:
+        _state['ctx'] = None
+        for q in ps:
+            try:
+                q.cleanup()
+            except Exception:
+                pass
+
+
 EXEC_FAMILIES = [['y = 3*a + b**2', 'z = a*b'], ['y = sin(a)', 'z = 2*b'], ['y = a*sum(b)', 'z = b']]
 
 
@@ -1366,6 +1775,8 @@ def shards(tier, seed):
         out.append({'kind': 'calls', 'seed': seed * 1000 + 500 + k, 'n': 40 if tier == 'quick' else 150})
     for k in range(4 if tier == 'quick' else 12):
         out.append({'kind': 'partialsub', 'seed': seed * 1000 + 700 + k, 'n': 30 if tier == 'quick' else 120})
+    for k in range(4 if tier == 'quick' else 12):
+        out.append({'kind': 'reload', 'seed': seed * 1000 + 900 + k, 'n': 30 if tier == 'quick' else 120})
     return out
 
 
@@ -1410,12 +1821,14 @@ def run_shard(shard, acc):
             except Exception as e:
                 import traceback
                 acc.viol('harness-error:%s' % type(e).__name__, traceback.format_exc()[-500:], {'kind': 'harness'})
-    elif shard['kind'] in ('calls', 'partialsub'):
+    elif shard['kind'] in ('calls', 'partialsub', 'reload'):
         rng = random.Random(shard['seed'])
         for i in range(shard['n']):
             try:
                 if shard['kind'] == 'calls':
                     run_calls_case(gen_calls_case(rng, i), acc)
+                elif shard['kind'] == 'reload':
+                    run_reload_case(gen_reload_case(rng, i, '%d_%d' % (shard['seed'], i), shard['seed']), acc)
                 else:
                     run_psub_case(gen_psub_case(rng, i), acc)
             except Exception as e:
@@ -1438,6 +1851,8 @@ def run_case(case, acc):
         run_calls_case(case, acc)
     elif case['kind'] == 'partialsub':
         run_psub_case(case, acc)
+    elif case['kind'] == 'reload':
+        run_reload_case(case, acc)
 
 
 def coverage_extra(tier, agg):
